@@ -72,20 +72,38 @@ def signature(src: str, r):
 
 
 def output_signature(src: str, probs):
-    """listed finding dead_arm_operand: the source has a ?: with a constant condition and every
-    well-formedness / ownership problem names an operand that occurs in an arm of such a ?:"""
+    """listed finding dead_arm_operand: the source has an unevaluated context (a ?: with a constant condition, a sizeof) and
+    every problem is one the finding describes:
+      - `identifier X used before/without declaration`: X occurs in an unevaluated context AND live code uses X too;
+      - `pure X initialised but never used` / `only used through DUP`: X occurs in an unevaluated context, or is an operation (op_*, cast_*, ml_* ...) - the dead expression itself;
+      - `X consumed N times`: X is an immediate of an unevaluated context;
+      - an effect left unused is never attributed."""
     from . import cparse as CP
 
     if not src or not probs:
         return None
     try:
-        names = CP.dead_arm_names(CP.parse(src))
+        ast = CP.parse(src)
+        names = CP.dead_arm_names(ast)
+        live = CP.live_operand_names(ast)
     except CP.ParseError:
         return None
     if not names:
         return None
     for pr in probs:
-        m = re.search(r"(?:identifier|pure|effect|parameter) (\w+) ", pr)
-        if not m or m.group(1) not in names:
+        m = re.search(r"(identifier|pure|effect|parameter) (\w+) ", pr)
+        if not m:
+            return None
+        kind, x = m.groups()
+        if kind == "identifier" and ("declaration" in pr or "used as a pure" in pr):
+            if not (x in names and x in live):
+                return None
+        elif kind == "pure" and ("never used" in pr or "only used through DUP" in pr):
+            if not (x in names or re.match(r"(op|cast|ml|cond|ite_cast|const)_\w+_\d+$", x)):
+                return None
+        elif kind == "pure" and "consumed" in pr:
+            if x not in names or len(x) != 1:
+                return None
+        else:
             return None
     return "dead_arm_operand"
